@@ -142,6 +142,18 @@ def L(cid: int):  # noqa: N802
             {"functions": {f"{c}/m": {"is_static": False, "is_class_method": False, "is_property": False}}},
         ),
     )
+    tc = f"T{u}"
+    t_static = ["sa", "sb", "sc", "sd", "se"]
+    t_inst = ["ia", "ib", "ic", "idd", "ie", "iff", "ig"]
+    letters["tuple_attrs"] = (
+        f"class {tc}:\n    sa, sb = 1, 2\n    (sc, sd), se = (1, 2), 3\n\n"
+        f"    def __init__(self, p: int) -> None:\n        self.ia, self.ib = p, p\n        (self.ic, self.idd), self.ie = (p, p), p\n        self.iff, *self.ig = p, p, p\n",
+        merge(
+            {"classes": {tc: {"has_ctor": True, "attributes": [f"{tc}/{a}" for a in t_static + t_inst]}}, "attributes": [f"{tc}/{a}" for a in t_static + t_inst],
+             "attribute_flags": {**{f"{tc}/{a}": {"is_static": True} for a in t_static}, **{f"{tc}/{a}": {"is_static": False} for a in t_inst}}},
+            fn(f"{tc}/__init__", ["self", "p"], 0),
+        ),
+    )
     letters["nested2"] = (
         f"class O{u}:\n    class M{u}:\n        class I{u}:\n            def d(self) -> int:\n                return 1\n\n        def e(self) -> int:\n            return 1\n",
         merge(
@@ -223,7 +235,7 @@ def run(rep: Report, tier: str, seed: int) -> None:
     uid = itertools.count(1)
     for a in LETTER_NAMES:
         units.append((next(uid), (a,)))
-    pair_letters = LETTER_NAMES if tier == "thorough" else ["func", "class", "nested_attrs", "bases_local", "bases_same_short_name", "bases_imported", "enum", "enum_in_class", "property_setter", "private_class", "nested2"]
+    pair_letters = LETTER_NAMES if tier == "thorough" else ["func", "class", "tuple_attrs", "nested_attrs", "bases_local", "bases_same_short_name", "bases_imported", "enum", "enum_in_class", "property_setter", "private_class", "nested2"]
     for a, b in itertools.permutations(pair_letters, 2):
         units.append((next(uid), (a, b)))
     rep.rule = (
@@ -324,6 +336,15 @@ def run(rep: Report, tier: str, seed: int) -> None:
                                     viol("flag", f"{name}:{fk}", {"id": eid, "expected": fv, "observed": e.get(fk)})
                                 else:
                                     rep.ok("flag")
+                for rel, flags in exp.get("attribute_flags", {}).items():
+                    e = byid["attributes"].get(f"{mid}/{rel}")
+                    if e is None:
+                        continue  # reported by 'complete'
+                    for fk, fv in flags.items():
+                        if e.get(fk) != fv or type(e.get(fk)) is not type(fv):
+                            viol("flag", f"{name}:attr:{fk}", {"id": f"{mid}/{rel}", "expected": fv, "observed": e.get(fk)})
+                        else:
+                            rep.ok("flag")
                 if exp.get("results") == "?":
                     unknown_results += [f"{mid}/{rel}/" for rel in exp.get("functions", {})]
                 else:
